@@ -15,7 +15,7 @@ Terms:  ('lit', v) ('param', name) ('const', def) ('fn', def) ('ctor', Variant, 
 """
 from facts import callee_of, call_args, loc
 import re
-import hirq
+import hirq, cloneid
 import facts as facts_mod
 
 MAX_PATHS = 4000
@@ -1282,12 +1282,30 @@ class Interp:
 
     TAKE = 'core::option::Option::<T>::take'
 
+    def referent_local(self, b, depth=0):
+        """The local a `&mut T` local stands for: a reference bound once, by `let r = &mut x` or by handing such a reference on
+        (`let s = r`, `&mut *r`, a parameter of an expanded helper), names x for as long as it lives - the borrow checker
+        guarantees nothing else touches x meanwhile -, so what is done through it is done to x.  Any other local is its own referent."""
+        d = self.body.defs.get(b)
+        if depth > 20 or d is None or d['kind'] != 'let' or d['proj'] or d['src'] is None or any(a['l']['k'] == 'Path' for a in self.body.assigns.get(b, ())) \
+                or not (d['pat'].get('ty') or '').startswith('&mut '):
+            return b
+        src = d['src']
+        inner = hirq.peel_refs(src)
+        if inner['k'] != 'Path' or inner.get('res') != 'local':
+            return b
+        if src['k'] == 'AddrOf' or (inner.get('ty') or '').startswith('&mut '):
+            return self.referent_local(inner['bind'], depth + 1)
+        return b
+
     def mem_take(self, cal, e, st):
         place_e = hirq.peel_refs(e['args'][0])
         ty = hirq.strip_refs(e['args'][0].get('ty') or '')
         if place_e['k'] == 'Path' and place_e.get('res') == 'local' and place_e['bind'] in st.env:
             # mem::take(&mut local) / mem::replace(&mut local, v): the local holds the default (resp. v) from here on
-            b = place_e['bind']
+            b = self.referent_local(place_e['bind'])
+            if b not in st.env:
+                b = place_e['bind']
             old = st.env[b]
             is_opt = ty.startswith('core::option::Option<')
             if cal == 'core::mem::take':
@@ -2341,6 +2359,11 @@ def builtin_summary(I, cal, args, node, st):
         if name == 'clone' and node.get('k') == 'MethodCall' and hirq.strip_refs(node['recv'].get('ty', '')).startswith('ldap3::') \
                 and hirq.strip_refs(node['recv'].get('ty', '')).split('<')[0] in ('ldap3::ldap::Ldap',):
             # a cloned handle is a distinct object: stores to its fields must not alias the original
+            return [Out('val', ('call', cal, tuple(args), node.get('id')), st.event(('call', cal, tuple(args), node)))]
+        if name in cloneid.CLONING_METHODS and cloneid.call_why(I.facts, cal, node) is not None:
+            # `x.clone()` is `x` only for a type whose Clone is a faithful copy; that is decided from the workspace's Clone impls
+            # (cloneid): a type with a hand-written Clone that answers something else - or one that contains such a type by value -
+            # yields a value of its own, distinct from its receiver
             return [Out('val', ('call', cal, tuple(args), node.get('id')), st.event(('call', cal, tuple(args), node)))]
         return [Out('val', args[0], st)]
     if (is_opt or is_res) and name in (('expect', 'unwrap') if I.combinators else ('expect', 'unwrap', 'unwrap_or_default')) and args:
